@@ -2004,6 +2004,14 @@ impl StorageEngine {
         let shard = self.get_shard(db, &key)?;
         let mut shard_guard = shard.write().unwrap();
         
+        // Strings are limited to 512 MB; a larger result is refused before anything is allocated
+        const MAX_STRING_LEN: usize = 512 * 1024 * 1024;
+        if offset.checked_add(value.len()).map_or(true, |end| end > MAX_STRING_LEN) {
+            return Err(FerrousError::Command(CommandError::Generic(
+                "string exceeds maximum allowed size (512MB)".to_string()
+            )));
+        }
+        
         // An empty value changes nothing: report the current length (0 for a missing key)
         if value.is_empty() {
             return match shard_guard.data.get(&key) {
